@@ -107,6 +107,23 @@ pub struct CompactionBackpressure {
     pub recommended_delay_ms: u64,
 }
 
+/// The renewal task of one compaction lease. It is stopped when the compaction it
+/// belongs to ends, however it ends (an early `?` return or a dropped future included):
+/// dropping a bare `JoinHandle` would detach the task and keep the lease alive forever.
+struct LeaseRenewal(tokio::task::JoinHandle<()>);
+
+impl LeaseRenewal {
+    fn abort(&self) {
+        self.0.abort();
+    }
+}
+
+impl Drop for LeaseRenewal {
+    fn drop(&mut self) {
+        self.0.abort();
+    }
+}
+
 /// Compactor service
 pub struct Compactor {
     config: CompactorConfig,
@@ -226,11 +243,11 @@ impl Compactor {
     }
 
     /// Spawn a background task that renews a lease every 2 minutes
-    fn spawn_lease_renewal(&self, lease_id: String) -> tokio::task::JoinHandle<()> {
+    fn spawn_lease_renewal(&self, lease_id: String) -> LeaseRenewal {
         let renewal_interval = Duration::from_secs(120); // Renew every 2 minutes (TTL is 5 minutes)
         let metadata = Arc::clone(&self.metadata);
 
-        tokio::spawn(async move {
+        LeaseRenewal(tokio::spawn(async move {
             let mut interval = tokio::time::interval(renewal_interval);
             interval.tick().await; // Skip first immediate tick
             loop {
@@ -241,7 +258,7 @@ impl Compactor {
                 }
                 debug!(lease_id = %lease_id, "Renewed compaction lease");
             }
-        })
+        }))
     }
 
     /// Run the main service loop. Returns when the shutdown token is cancelled.
